@@ -916,6 +916,15 @@ func main() {
 		}
 		c.Distinct("wal-partitions", strconv.Itoa(nparts))
 	}
+	// concurrent rounds (concurrent.go): writers racing forced flushes, then SIGKILL
+	for round := 0; round < c.Pick(3, 12); round++ {
+		w := <-sem
+		wg.Add(1)
+		go func(round, w int) {
+			defer func() { sem <- w; wg.Done() }()
+			rn.concurrentRound(round, w)
+		}(round, w)
+	}
 	wg.Wait()
 	c.Extra("crash_cases_planned", totalCases)
 	c.Finish()
